@@ -78,7 +78,7 @@ class lib_run:
         # deterministic step limit counts - and in the library scope as soon as a thread is spawned
         KERNEL.begin_run(pol, scope_files("engine"), step_cap=None, fault_seed=self.spec["seed"],
                          timeout_fire_p=self.spec.get("timeout_fire_p", 0.0), hang_limit=SEQ_STEP_LIMIT,
-                         lib_scope=scope_files(self.spec.get("scope", "nokw")))
+                         lib_scope=scope_files(self.spec.get("scope", "nokw")), engine=scope_files("engine"))
         KERNEL.main_real_timeout = PAR_LIMIT
         self.started0 = KERNEL.counters["lib_threads_started"]
         KERNEL.trace_current(KERNEL.main)
@@ -305,37 +305,54 @@ class W09:
         del t, data
 
     def do_abort_scan(self, sid, i, d, spec):
-        """Crash point inside a scan: run it once to learn its length in traced
-        steps, then run it again and raise InjectedAbort at a seeded step.  The
-        aborted scan has no result; what is checked is that every later result
-        on the same scanner / in the same process is unaffected."""
+        """Crash point inside a scan: run it once (as a kernel task, under the
+        engine-step limit) to learn its length in traced steps, then run it again
+        and raise InjectedAbort at a seeded step.  The aborted scan has no result;
+        what is checked is that every later result on the same scanner / in the
+        same process is unaffected."""
         sc = self.scanners[sid]
         data = self.corpus[i]
         scope = scope_files(spec.get("scope", "nokw"))
-        KERNEL.begin_run(sched.Policy(), scope_files("engine"))
+        key = self.tkey(self.scanner_cfg.get(sid, 0), i, d)
+
+        def fn():
+            try:
+                return sc.scan(data, d)
+            except Exception as e:  # noqa: BLE001
+                return e
+
+        KERNEL.begin_run(sched.Policy(), scope, hang_limit=SEQ_STEP_LIMIT, lib_scope=scope, engine=scope_files("engine"))
         try:
-            with watchdog(OP_LIMIT):
-                t, n = sched.count_steps(scope, lambda: sc.scan(data, d), limit=SEQ_STEP_LIMIT * 8, exc=kernel.StepLimitExceeded)
+            with watchdog(OP_LIMIT * 2):
+                dt = KERNEL.run_tasks([fn], real_timeout=PAR_LIMIT)[0]
         except HangDetected:
             raise Harness("stall in abort_scan dry run")
-        except (kernel.StepLimitExceeded, Exception) as e:  # noqa: BLE001
-            self.record(self.tkey(self.scanner_cfg.get(sid, 0), i, d), e, task="dry")
+        if KERNEL.hung:
+            raise Harness("stall in abort_scan dry run")
+        n = KERNEL.n
+        if isinstance(dt.error, kernel.StepLimitExceeded):
+            self.aborted = True
+            self.record(key, dt.error, task="dry")
             return
-        self.record(self.tkey(self.scanner_cfg.get(sid, 0), i, d), t, task="dry")
+        self.record(key, dt.error if dt.error is not None else dt.result, task="dry")
         if n < 1:
             return
         at = 1 + (spec.get("seed", 0) % n)
         self.counters["aborts_injected"] = self.counters.get("aborts_injected", 0) + 1
+        KERNEL.begin_run(sched.Policy(), scope, hang_limit=SEQ_STEP_LIMIT, lib_scope=scope, engine=scope_files("engine"))
+        KERNEL.abort_at = (at, InjectedAbort)
         try:
-            with watchdog(OP_LIMIT):
-                sched.count_steps(scope, lambda: sc.scan(data, d), limit=at, exc=InjectedAbort)
-            self.counters["aborts_swallowed"] = self.counters.get("aborts_swallowed", 0) + 1
-        except InjectedAbort:
-            pass
+            with watchdog(OP_LIMIT * 2):
+                at_task = KERNEL.run_tasks([fn], real_timeout=PAR_LIMIT)[0]
         except HangDetected:
             raise Harness("stall in abort_scan")
-        except Exception:  # noqa: BLE001 - the scan may translate the fault; it has no result either way
-            pass
+        finally:
+            KERNEL.abort_at = None
+        if KERNEL.hung:
+            raise Harness("stall in abort_scan")
+        if not isinstance(at_task.error, InjectedAbort):
+            # the code under test swallowed or translated the fault; it still has no result
+            self.counters["aborts_swallowed"] = self.counters.get("aborts_swallowed", 0) + 1
 
     def do_par_scan(self, sid, jobs, spec):
         sc = self.scanners[sid]
@@ -372,12 +389,12 @@ class W09:
         # sequential dry run: step counts (for PCT and the step cap) and a
         # same-world sequential witness for every key
         est = 0
+        est_engine = 0
         counts = {} if spec.get("policy") == "sw" else None
         for (i, d), fn in zip(jobs, fns):
             # dry run through the kernel with a policy that never pre-empts: counts the steps of
             # every task the job involves (threads the code under test starts included)
-            KERNEL.begin_run(sched.Policy(), scope, hang_limit=SEQ_STEP_LIMIT * (1 if spec.get("scope", "engine") == "engine" else 8),
-                             lib_scope=scope)
+            KERNEL.begin_run(sched.Policy(), scope, hang_limit=SEQ_STEP_LIMIT, lib_scope=scope, engine=scope_files("engine"))
             KERNEL.site_counts = counts
             try:
                 with watchdog(OP_LIMIT * 2):
@@ -393,13 +410,14 @@ class W09:
                 self.record(self.tkey(cfgk, i, d), dt.error, task="dry")
                 return
             est += KERNEL.n
+            est_engine += KERNEL.n_engine
             self.record(self.tkey(cfgk, i, d), dt.error if dt.error is not None else dt.result, task="dry")
         policy = sched.make_policy(spec, len(fns) + 1, est, counts)
         s = KERNEL
         # every schedule executes the same work as the dry run (est steps) plus a little; anything
         # beyond twice that and a million is a loop that does not end
         s.begin_run(policy, scope, step_cap=None, fault_seed=spec.get("seed", 0),
-                    timeout_fire_p=spec.get("timeout_fire_p", 0.0), hang_limit=2 * est + 1_000_000)
+                    timeout_fire_p=spec.get("timeout_fire_p", 0.0), hang_limit=2 * est_engine + 1_000_000, engine=scope_files("engine"))
         try:
             tasks = s.run_tasks(fns, real_timeout=PAR_LIMIT)
         except kernel.SimDeadlock as e:
